@@ -33,7 +33,9 @@ FAMILY_TEMPLATES = [
     ("velocity_{c}", "velocity"), ("flux_{c}", "flux"), ("extra_{c}", "extra"), ("B_{c}_left", "B_left"),
     ("B_{c}_right", "B_right"), ("a_{c}_b", "a_b"), ("{c}_frac", None), ("w{c}", None), ("oxy_{c}", "oxy"),
 ]
-SCALARS = ["density", "pressure", "scalar_01", "temperature", "metallicity", "zeta"]
+SCALARS = ["density", "pressure", "scalar_01", "temperature", "metallicity", "zeta",
+           # names that are proper prefixes of other names (a numbered family with ten or more members, an element suffix)
+           "scalar_1", "scalar_10", "scalar_11", "metallicity_Fe"]
 PART_TEMPLATES = [("position_{c}", "position"), ("velocity_{c}", "velocity"), ("spin_{c}", "spin"), ("l{c}", None)]
 PART_SCALARS = [("mass", "d"), ("identity", "i"), ("levelp", "i"), ("family", "b"), ("tag", "b"), ("birth_time", "d")]
 
@@ -57,7 +59,7 @@ def name_sets(draw, ndim, templates, scalars, typed=False):
         comps = {c: tmpl.format(c=c) for c in letters}
         fams.append({"comps": comps, "merged": merged})
         names += list(comps.values())
-    sc = draw(st.lists(st.sampled_from(scalars), min_size=1, max_size=3, unique=True))
+    sc = draw(st.lists(st.sampled_from(scalars), min_size=1, max_size=4, unique=True))
     names += [s if not typed else s[0] for s in sc]
     collision = None
     if draw(st.integers(0, 9)) == 0:
